@@ -7,6 +7,7 @@ import (
 	"math"
 	"strings"
 	"verif/harness/exprpos"
+	"verif/harness/props/c13"
 
 	"github.com/runreveal/pql/parser"
 
@@ -207,6 +208,42 @@ func generate(w *mon.W) {
 				}
 			}
 			do(sb.String())
+		}
+		// programs with one planted misuse each (wrong argument counts at every
+		// depth, misplaced $left/$right, bad lets, unknown join kinds, bad row counts)
+		for _, src := range c13.PlantedSources(w.Seed, w.Pick(3_000, 100_000)) {
+			do(src)
+		}
+		// every built-in with 0..4 arguments as the argument of every built-in
+		{
+			bi := []string{"not", "isnull", "isnotnull", "iff", "iif", "strcat", "tolower", "toupper", "now", "count", "countif", "f"}
+			for _, inner := range bi {
+				for n := 0; n <= 4; n++ {
+					call := inner + "(" + strings.TrimSuffix(strings.Repeat("a, ", n), ", ") + ")"
+					for _, outer := range bi {
+						do("T | where " + outer + "(" + call + ")")
+						do("T | extend x = " + outer + "(1, " + call + ") | summarize " + outer + "(" + call + ", 2) by k")
+					}
+					do("let v = " + call + "; T | where -" + call + "[" + call + "] in (" + call + ")")
+				}
+			}
+		}
+		// constant arithmetic at the edges: every operator between boundary values,
+		// as a let value, a predicate, a row count and an index
+		{
+			edge := []string{"0", "1", "2", "7", "9223372036854775807", "9223372036854775808", "18446744073709551615", "18446744073709551616", "4294967296", "0.0", "1e308", "0x10"}
+			for _, a := range edge {
+				for _, b := range edge {
+					for _, op := range []string{"+", "-", "*", "/", "%"} {
+						for _, sg := range []string{"", "-"} {
+							x := sg + a + " " + op + " " + sg + b
+							do("let k = " + x + "; T | take k")
+							do("let k = (" + x + ") " + op + " (5 - 5); T | where a == k | extend m[k]")
+							do("T | where a == " + x + " | take " + x)
+						}
+					}
+				}
+			}
 		}
 		for _, lit := range append(append([]string{}, gen.IntSpellings...), gen.Lexicon...) {
 			for _, tmpl := range []string{"T | take %s", "T | where a == -%s", "let n = %s; T | top n by a", "T | where m[%s] == 1", "T | extend %s", "T | where %s", "T | sort by %s desc | project %s", "%s"} {
